@@ -136,9 +136,33 @@ int CapStatus(const T& v, size_t cap) {
   nop::Serializer<W> ser{heap.get(), cap};
   return Code(ser.Write(v));
 }
+// The unchecked BufferWriter behind each of the three ways a Serializer holds its writer: Serializer::Write must call
+// Prepare(GetSize) first and refuse; bytes behind the capacity are guarded (1000 + status: the guard was damaged).
+template <typename T>
+int CapStatusUnchecked(const T& v, size_t cap, int form) {
+  const size_t guard = 600;
+  std::unique_ptr<uint8_t[]> heap(new uint8_t[cap + guard]);
+  memset(heap.get(), 0xEE, cap);
+  memset(heap.get() + cap, 0xA5, guard);
+  int st;
+  if (form == 0) {
+    nop::Serializer<nop::BufferWriter> ser{heap.get(), cap};
+    st = Code(ser.Write(v));
+  } else if (form == 1) {
+    nop::BufferWriter w{heap.get(), cap};
+    nop::Serializer<nop::BufferWriter*> ser{&w};
+    st = Code(ser.Write(v));
+  } else {
+    nop::Serializer<std::unique_ptr<nop::BufferWriter>> ser{std::make_unique<nop::BufferWriter>(heap.get(), cap)};
+    st = Code(ser.Write(v));
+  }
+  for (size_t i = 0; i < guard; i++) if (heap[cap + i] != 0xA5) return 1000 + st;
+  return st;
+}
 template <typename T>
 void EmitCuts(const T& v, const uint8_t* buf, size_t n, JsonOut& o) {
-  // typed block transfers reach BufferReader / PedanticBufferReader / StreamReader unchanged here (no harness layer)
+  // typed block transfers reach BufferReader / PedanticBufferReader / StreamReader unchanged here (no harness layer);
+  // BufferReader also behind a pointer and a unique_ptr (the other two Deserializer specializations)
   o.key("cuts");
   o.begin_arr();
   for (size_t k = 0; k < n; k++) {
@@ -148,6 +172,8 @@ void EmitCuts(const T& v, const uint8_t* buf, size_t n, JsonOut& o) {
     o.num(CutStatus<nop::BufferReader, T>(heap.get(), k));
     o.num(CutStatus<nop::PedanticBufferReader, T>(heap.get(), k));
     o.num(CutStatus<nop::StreamReader<std::stringstream>, T>(std::string(reinterpret_cast<const char*>(heap.get()), k)));
+    { nop::BufferReader r{heap.get(), k}; o.num(CutStatus<nop::BufferReader*, T>(&r)); }
+    o.num(CutStatus<std::unique_ptr<nop::BufferReader>, T>(std::make_unique<nop::BufferReader>(heap.get(), k)));
     o.end_arr();
   }
   o.end_arr();
@@ -157,6 +183,7 @@ void EmitCuts(const T& v, const uint8_t* buf, size_t n, JsonOut& o) {
     o.begin_arr();
     o.num(CapStatus<nop::PedanticBufferWriter, T>(v, c));
     o.num(CapStatus<nop::ConstexprBufferWriter, T>(v, c));
+    for (int form = 0; form < 3; form++) o.num(CapStatusUnchecked(v, c, form));
     o.end_arr();
   }
   o.end_arr();
